@@ -615,7 +615,7 @@ func modelShapeAfter(shape []int, specs []SpecJ) []int {
 	return out
 }
 
-var c02DTs = []DT{dtInt8, dtInt16, dtF32, dtF64, dtC128, dtStr, dtBool}
+var c02DTs = []DT{dtInt8, dtInt16, dtF32, dtF64, dtC128, dtStr, dtBool, dtInt, dtUint8, dtUint64, dtC64, dtUnsafe, dtRec24, dtArr6}
 var c02Layouts = []string{"contig", "cmraw", "cmconv", "lazyT", "sliced", "stepsliced", "slicedT", "Tsliced", "picked", "pickslice", "cmraw+lazyT", "cmraw+sliced"}
 
 func genC02Prog(rt *rapid.T, shape []int, depth int, sweepAxis int) []C02Step {
